@@ -105,8 +105,8 @@ PROPS = {
         'assumptions': ['Get theorems assume stored sections fit MaxAllowedSectionSize (the reader-side limit) and digests fit go-cid\'s 32 MiB stream cap'],
     },
     'C05': {
-        'families': [('c05', 60, 600)],
-        'rule': 'put histories (incl. none) x data/index padding x codec x StoreIdentityCIDs x WriteAsCarV1 x {blockstore, storage}: finalized file compared byte-for-byte with the model and with the layout specification (pragma, header fields, padding, payload, index padding, index); the real Reader.Inspect(true) and lib.VerifyCar verdicts on it',
+        'families': [('c05', 60, 600), ('c12', 20, 100)],
+        'rule': 'put histories (incl. none) x data/index padding x codec x StoreIdentityCIDs x WriteAsCarV1 x {blockstore, storage}: finalized file compared byte-for-byte with the model and with the layout specification (pragma, header fields, padding, payload, index padding, index); the real Reader.Inspect(true) and lib.VerifyCar verdicts on it; compositions (finalize, reopen, put more or not, finalize again; discard, reopen, finalize: the C12 sessions) end in the same byte-for-byte comparison',
         'trusted': [],
         'assumptions': ['WithoutIndex() on a writable store is outside the grid (Finalize reports unknown index codec: documented TODO)'],
     },
@@ -114,7 +114,7 @@ PROPS = {
         'families': [('c03', 60, 600)],
         'rule': 'generated archives (real writers; duplicates, equal digest under different hash codes, identity CIDs, CIDv0, CARv1 with optional null padding / CARv2 with data padding) x {bytes.Reader, plain reader} x {car-index-sorted, car-multihash-index-sorted, insertion index} x {StoreIdentityCIDs, ZeroLengthSectionAsEOF, MaxIndexCidSize}; GetAll/GetFirst for every present CID, codec/hash-code variants and absent CIDs, ForEach where offered; distinct = distinct script text',
         'trusted': ['GoLLRB as an insertion-stable ordered multiset', 'Go sort.Sort instability is canonicalised away (entries with equal digest compared as sorted offset lists)'],
-        'assumptions': ['lookup correctness of the binary search (GetAll over a loaded index) is tied differentially, not yet by a theorem (see level_note)'],
+        'assumptions': ['the in-memory insertion index (GoLLRB) is tied differentially; lookups in the two on-disk codecs are proved exact (generated_index_lookup_exact)'],
     },
     'C02': {
         'families': [('c02', 6, 40)],
